@@ -434,6 +434,7 @@ static int String_Look(var self, var input, int pos) {
         case '?':  String_Concat(self, $S("\?")); break;
         default: throw(FormatError, "Unknown Escape Sequence '\\%c'!", chr);
       }
+      continue;
     }
     
     char buffer[2];
